@@ -35,6 +35,11 @@ def run(ctx, rep):
         if not used:
             rep.info("K5", fw, "mode_proj_order", "parameter accepted and never read (the object's own order is used); the limit is "
                                                    "order-independent, so no clause is broken")
+    rep.rule("K6", "the equality step of the projection writes the constants its parametrisation implies over the whole constrained part (rule I5 of C03 on the "
+                   "equality-projection bodies)", floor=4)
+    from ..report import Relay as _Relay
+    from . import c03 as _c03
+    _c03._check_constants(ctx, _Relay(rep, {"I5": "K6"}, keep=lambda f_, con_: "calc_proj_eq_constraint" in (getattr(f_, "qualname", None) or str(f_))))
 
 
 def _proj_app(level):
@@ -422,7 +427,26 @@ def _check_stop_helpers(ctx, rep):
         rep.undecided("K3", hq, "forward", "expected one call of the vector-level verdict")
 
 
+def _check_factory_returns(ctx, rep, rule="K5"):
+    """func_calc_proj_physical(_with_var) hand out the closure that runs the PHYSICAL projection on every path (no shortcut to the
+    equality-only or inequality-only projection under some flag)"""
+    for nm in ("func_calc_proj_physical", "func_calc_proj_physical_with_var"):
+        f = ctx.ix.func(Q + nm)
+        rets = returns(f)
+        nested = set(f.nested)
+        bad = [r for r in rets if not (isinstance(r.value, ast.Name) and r.value.id in nested)]
+        con = "%s returns its closure" % nm
+        if not rets:
+            rep.undecided(rule, f, con, "no return")
+        elif bad:
+            rep.violation(rule, f, con, "on some path the factory returns `%s` instead of its own closure: the projection handed to the optimiser on that path "
+                                        "is not the physical (equality and inequality) projection" % unparse(bad[0].value)[:80], node=bad[0])
+        else:
+            rep.holds(rule, f, con, "every path returns the nested closure", node=rets[0])
+
+
 def _check_closures(ctx, rep):
+    _check_factory_returns(ctx, rep)
     ix = ctx.ix
     f = ix.func(Q + "func_calc_proj_physical")
     inner = f.nested.get("_func_proj")
